@@ -537,7 +537,7 @@ func buildGraph(w *World, m *machine) *machineGraph {
 	}
 	sort.Strings(g.names)
 	// initial state: the state a driver loop starts with
-	for _, fn := range libFuncs(w) {
+	for _, fn := range libRoots(w) {
 		paths, err := w.Paths(fn)
 		if err != nil {
 			continue
@@ -1265,7 +1265,7 @@ func ruleProdConsumer(w *World, r *RuleResult) {
 		prod := producerFuncs(w, m)
 		// consumer functions: methods of the machine type that receive from its channel
 		var drains []*ssa.Function
-		for _, fn := range libFuncs(w) {
+		for _, fn := range libRoots(w) {
 			if prod[fn] || fn.Signature.Recv() == nil {
 				continue
 			}
